@@ -66,9 +66,13 @@ def alter_column(
     )
 
     if type_:
+        # the constraint of the new type is added after the column may have
+        # been renamed by the same operation
         t = operations.schema_obj.table(
             table_name,
-            operations.schema_obj.column(column_name, type_),
+            operations.schema_obj.column(
+                new_column_name or column_name, type_
+            ),
             schema=schema,
         )
         for constraint in t.constraints:
